@@ -216,6 +216,36 @@ pub fn run(env: &Env) -> Rec {
     });
     rec.merge(r1);
     rec.exhaustive(format!("all strings up to length {} over the 9-symbol 1-4 byte alphabet {{SP,A0,3000,a,A,E9,20AC,FF21,1F600}}", max_len));
+    // every Unicode scalar value alone, after / before a Hebrew letter (so that its bidi class matters), and
+    // after a fullwidth capital (width + case mapping active)
+    let rsw = par(crate::ucd::NCP / 0x400, |i, rec| {
+        let mut s = String::new();
+        for cp in (i * 0x400) as u32..((i + 1) * 0x400) as u32 {
+            if let Some(c) = char::from_u32(cp) {
+                for t in 0..4 {
+                    s.clear();
+                    match t {
+                        0 => s.push(c),
+                        1 => {
+                            s.push('\u{5D0}');
+                            s.push(c)
+                        }
+                        2 => {
+                            s.push(c);
+                            s.push('\u{5D0}')
+                        }
+                        _ => {
+                            s.push('\u{FF21}');
+                            s.push(c)
+                        }
+                    }
+                    check(env, &s, rec);
+                }
+            }
+        }
+    });
+    rec.merge(rsw);
+    rec.exhaustive("every Unicode scalar value c as c, U+05D0 c, c U+05D0 and U+FF21 c through prepare and enforce of both username profiles");
     let n = env.n(3_000_000, 80_000_000);
     let per = 1000usize;
     let r2 = par(n.div_ceil(per), |c, rec| {
